@@ -248,8 +248,8 @@ MANIFEST = {
                    "66 generated typed parser shapes (int, unsigned, std::string, enum), all argument vectors up to length 6 over each shape's "
                    "alphabet (thorough; 4 in quick) plus longer seeded vectors, observing parse()/parse_help() and the parser's own parse member."),
     "level_note": ("Trusted: Lean kernel + propext/Classical.choice/Quot.sound; fidelity of the hand-written model outside the exercised inputs; "
-                   "harness, shape generator and digest protocol; libstdc++ num_get modelled as [+-]?[0-9]+ with range check. help_only_alone and fuel "
-                   "monotonicity are not proved (correspondence only). Open known finding: many(<parser that succeeds without consuming>) does not "
+                   "harness, shape generator and digest protocol; libstdc++ num_get modelled as [+-]?[0-9]+ with range check. fuel monotonicity is not proved "
+                   "(all theorems hold for every fuel). Open known finding: many(<parser that succeeds without consuming>) does not "
                    "terminate (model: diverge for every fuel, harness: TIMEOUT). No sorry/axiom/native_decide."),
     "technique": "Lean 4 proof over hand-written executable model + exhaustive differential correspondence (ASan/UBSan harness)",
     "design_ref": "DESIGN.md §5 C03, Appendix A.2",
